@@ -206,104 +206,121 @@ def run_probe_templates(ctx, hists):
     for sfx, name in PKGS.items():
         files[f"{sfx}/t.go"] = f"package {name}\n\ntype T struct{{}}\n"
     src = ["package src", "", "import (", f'\txio "{mod}/x/io"', f'\tyio "{mod}/y/io"', f'\tzio "{mod}/z/io0"', ")", ""]
+    # parameter names collide with qualifiers, with each other's suffixes and -- once exported -- with each other
+    SIGS = ["M(a xio.T, io yio.T, a1 string, _ zio.T) (io0 int)",
+            "M(id xio.T, ID yio.T, a string) (A zio.T, err error)",
+            "M(url int, Url yio.T, URL xio.T, io0 zio.T)",
+            "M(a int, a1 int, a2 xio.T, io yio.T) (io1 zio.T)"]
     for i in range(len(hists)):
-        # parameter names collide with qualifiers and with each other's suffixes on purpose
-        src.append(f"type I{i} interface {{ M(a xio.T, io yio.T, a1 string, _ zio.T) (io0 int) }}")
+        src.append(f"type I{i} interface {{ {SIGS[i % len(SIGS)]} }}")
         if any(o["op"] == "suggest" for o in hists[i]["ops"]):
-            src.append(f"type J{i} interface {{ M(a xio.T, io yio.T, a1 string, _ zio.T) (io0 int) }}")
+            src.append(f"type J{i} interface {{ {SIGS[i % len(SIGS)]} }}")
     files["src/src.go"] = "\n".join(src) + "\n"
-    uni = universe(["a", "a1", "io", "type", "src"], ["a", "a1", "a2", "io", "io0", "type1", "typeParam"], ["io", "io0", "src"])
-    t = []
-
-    def block(iface, i, ops):
-        t.append('{{- range $i, $x := .Interfaces }}{{ if eq $x.Name "%s" }}' % iface)
-        t.append("{{- $s := (index $x.Methods 0).Scope }}")
-        t.append('{"op":"reset","case":%d,"inpkg":false,"dst":"","visible":[{{ range $k, $n := (split "," %s) }}{{ if $s.NameExists $n }}{{ printf "%%q" $n }},{{ end }}{{ end }}""]}'
-                 % (i, tq(",".join(uni))))
-        # imports already made by mockery for the real signature
-        t.append('{{- range $.Imports }}\n{"op":"import","case":%d,"name":"","path":{{ printf "%%q" .Path }},"nil":false,"res":{{ printf "%%q" .Qualifier }}}{{ end }}' % i)
-        # the scope mockery produced for the method must see the qualifiers of the file's imports
-        t.append('{"op":"scopesees","case":%d,"visible":[{{ range $k, $n := (split "," %s) }}{{ if $s.NameExists $n }}{{ printf "%%q" $n }},{{ end }}{{ end }}""]}'
-                 % (i, tq(",".join(uni))))
-        for o in ops:
-            op = o["op"]
-            if op == "add":   # AddName has no result and cannot be called from a template: use exists instead
-                op = "exists"
-            if op == "exists":
-                t.append('{"op":"exists","case":%d,"name":%s,"res":{{ $s.NameExists %s }}}' % (i, tq(o["name"]), tq(o["name"])))
-            elif op == "suggest":
-                t.append('{"op":"suggest","case":%d,"prefix":%s,"res":{{ printf "%%q" ($s.SuggestName %s) }}}' % (i, tq(o["prefix"]), tq(o["prefix"])))
-            elif op == "alloc":
-                t.append('{"op":"alloc","case":%d,"prefix":%s,"res":{{ printf "%%q" ($s.AllocateName %s) }}}' % (i, tq(o["prefix"]), tq(o["prefix"])))
-            elif op == "import":
-                path = f"{mod}/{o['path']}"
-                t.append('{{- $p := $.Registry.AddImport %s %s }}\n{"op":"import","case":%d,"name":%s,"path":%s,"nil":{{ if $p }}false{{ else }}true{{ end }},"res":{{ if $p }}{{ printf "%%q" $p.Qualifier }}{{ else }}""{{ end }}}'
-                         % (tq(o["name"]), tq(path), i, tq(o["name"]), tq(path)))
-            elif op == "imports":
-                t.append('{"op":"imports","case":%d,"paths":[{{ range $.Imports }}{{ printf "%%q" .Path }},{{ end }}""],"quals":[{{ range $.Imports }}{{ printf "%%q" .Qualifier }},{{ end }}""]}' % i)
-            elif op == "qual":
-                path = f"{mod}/{o['path']}"
-                t.append('{"op":"qual","case":%d,"path":%s,"found":{{ $f := false }}{{ range $.Imports }}{{ if eq .Path %s }}{{ $f = true }}{{ end }}{{ end }}{{ $f }},"res":{{ if $f }}{{ printf "%%q" ($.Imports.PkgQualifier %s) }}{{ else }}""{{ end }}}'
-                         % (i, tq(path), tq(path), tq(path)))
-            elif op == "newscope":
-                t.append("{{- $s = $.Registry.MethodScope }}")
-                t.append('{"op":"newscope","case":%d,"visible":[{{ range $k, $n := (split "," %s) }}{{ if $s.NameExists $n }}{{ printf "%%q" $n }},{{ end }}{{ end }}""]}'
-                         % (i, tq(",".join(uni))))
-        t.append("{{- end }}{{ end }}")
-
-    erased = {}
-    for i, h in enumerate(hists):
-        block("I%d" % i, i, h["ops"])
-        if any(o["op"] == "suggest" for o in h["ops"]):
-            # twin interface with the same signature (own file, own registry, own scope): the same history
-            # with the suggest operations erased; its replies are logged next to the original ones
-            erased[i] = [o for o in h["ops"] if o["op"] != "suggest"]
-            block("J%d" % i, i, erased[i])
+    uni = universe(["a", "a1", "io", "type", "src", "id", "ID", "url", "Url", "URL", "A", "err"],
+                   ["a", "a1", "a2", "io", "io0", "io1", "type1", "typeParam"], ["io", "io0", "src"])
     w = ctx.new_world(files, module=mod, name="probeworld")
-    (w / "probe.templ").write_text("\n".join(t) + "\n")
-    conf = {"template": "file://" + str(w / "probe.templ"), "require-template-schema-exists": False, "formatter": "noop",
-            "dir": str(w / "out"), "filename": "{{.InterfaceName}}.txt", "pkgname": "out",
-            "packages": {f"{mod}/src": {"config": {"all": True}}}}
-    (w / ".mockery.yml").write_text(json.dumps(conf))
-    res = ctx.run_mockery(w, timeout=300)
-    if res.code != 0:
-        if res.panicked:
-            ctx.violation({"kind": "panic", "route": "template"}, res.brief())
-            return [], []
-        raise MachineryError("probe-template run failed (exit %s): %s" % (res.code, (res.err + res.out)[-1500:]))
-    def read_events(fn):
-        f = w / "out" / fn
-        if not f.exists():
-            raise MachineryError(f"probe output {f} missing")
-        out = []
-        for ln in f.read_text().splitlines():
-            ln = ln.strip()
-            if not ln.startswith("{"):
-                continue
-            ln = ln.replace(',""]', "]").replace('[""]', "[]")
-            e = json.loads(ln)
-            for k in ("visible", "paths", "quals"):   # strip the trailing "" sentinel of the list fields
-                if k in e:
-                    e[k] = [x for x in e[k] if x != ""]
-            out.append(e)
-        return out
 
-    events = []
-    for i in range(len(hists)):
-        evs = read_events(f"I{i}.txt")
-        if i in erased:
-            er = [e for e in read_events(f"J{i}.txt")]
-            j = 0
-            for e in evs:
-                if e["op"] == "suggest":
+    def run_variant(off, inpkg):
+        """one mockery run; off is added to every case number; inpkg selects the in-package layout"""
+        t = []
+
+        def block(iface, i, ops):
+            t.append('{{- range $i, $x := .Interfaces }}{{ if eq $x.Name "%s" }}' % iface)
+            t.append("{{- $s := (index $x.Methods 0).Scope }}")
+            t.append('{"op":"reset","case":%d,"inpkg":@INPKG@,"dst":"@DST@","visible":[{{ range $k, $n := (split "," %s) }}{{ if $s.NameExists $n }}{{ printf "%%q" $n }},{{ end }}{{ end }}""]}'
+                     % (i, tq(",".join(uni))))
+            # imports already made by mockery for the real signature
+            t.append('{{- range $.Imports }}\n{"op":"import","case":%d,"name":"","path":{{ printf "%%q" .Path }},"nil":false,"res":{{ printf "%%q" .Qualifier }}}{{ end }}' % i)
+            # the scope mockery produced for the method must see the qualifiers of the file's imports
+            t.append('{"op":"scopesees","case":%d,"visible":[{{ range $k, $n := (split "," %s) }}{{ if $s.NameExists $n }}{{ printf "%%q" $n }},{{ end }}{{ end }}""],'
+                     '"must":[{{ range (index $x.Methods 0).Params }}{{ printf "%%q" .Var.Name }},{{ end }}{{ range (index $x.Methods 0).Returns }}{{ printf "%%q" .Var.Name }},{{ end }}""],'
+                     '"mustseen":[{{ range (index $x.Methods 0).Params }}{{ if $s.NameExists .Var.Name }}{{ printf "%%q" .Var.Name }},{{ end }}{{ end }}{{ range (index $x.Methods 0).Returns }}{{ if $s.NameExists .Var.Name }}{{ printf "%%q" .Var.Name }},{{ end }}{{ end }}""]}'
+                     % (i, tq(",".join(uni))))
+            for o in ops:
+                op = o["op"]
+                if op == "add":   # AddName has no result and cannot be called from a template: use exists instead
+                    op = "exists"
+                if op == "exists":
+                    t.append('{"op":"exists","case":%d,"name":%s,"res":{{ $s.NameExists %s }}}' % (i, tq(o["name"]), tq(o["name"])))
+                elif op == "suggest":
+                    t.append('{"op":"suggest","case":%d,"prefix":%s,"res":{{ printf "%%q" ($s.SuggestName %s) }}}' % (i, tq(o["prefix"]), tq(o["prefix"])))
+                elif op == "alloc":
+                    t.append('{"op":"alloc","case":%d,"prefix":%s,"res":{{ printf "%%q" ($s.AllocateName %s) }}}' % (i, tq(o["prefix"]), tq(o["prefix"])))
+                elif op == "import":
+                    path = f"{mod}/{o['path']}"
+                    t.append('{{- $p := $.Registry.AddImport %s %s }}\n{"op":"import","case":%d,"name":%s,"path":%s,"nil":{{ if $p }}false{{ else }}true{{ end }},"res":{{ if $p }}{{ printf "%%q" $p.Qualifier }}{{ else }}""{{ end }}}'
+                             % (tq(o["name"]), tq(path), i, tq(o["name"]), tq(path)))
+                elif op == "imports":
+                    t.append('{"op":"imports","case":%d,"paths":[{{ range $.Imports }}{{ printf "%%q" .Path }},{{ end }}""],"quals":[{{ range $.Imports }}{{ printf "%%q" .Qualifier }},{{ end }}""]}' % i)
+                elif op == "qual":
+                    path = f"{mod}/{o['path']}"
+                    t.append('{"op":"qual","case":%d,"path":%s,"found":{{ $f := false }}{{ range $.Imports }}{{ if eq .Path %s }}{{ $f = true }}{{ end }}{{ end }}{{ $f }},"res":{{ if $f }}{{ printf "%%q" ($.Imports.PkgQualifier %s) }}{{ else }}""{{ end }}}'
+                             % (i, tq(path), tq(path), tq(path)))
+                elif op == "newscope":
+                    t.append("{{- $s = $.Registry.MethodScope }}")
+                    t.append('{"op":"newscope","case":%d,"visible":[{{ range $k, $n := (split "," %s) }}{{ if $s.NameExists $n }}{{ printf "%%q" $n }},{{ end }}{{ end }}""]}'
+                             % (i, tq(",".join(uni))))
+            t.append("{{- end }}{{ end }}")
+
+        erased = {}
+        for i, h in enumerate(hists):
+            block("I%d" % i, i + off, h["ops"])
+            if any(o["op"] == "suggest" for o in h["ops"]):
+                # twin interface with the same signature (own file, own registry, own scope): the same history
+                # with the suggest operations erased; its replies are logged next to the original ones
+                erased[i] = [o for o in h["ops"] if o["op"] != "suggest"]
+                block("J%d" % i, i + off, erased[i])
+        dst = f"{mod}/src" if inpkg else f"{mod}/out"
+        text = "\n".join(t) + "\n"
+        text = text.replace("@INPKG@", "true" if inpkg else "false").replace("@DST@", dst)
+        (w / "probe.templ").write_text(text)
+        conf = {"template": "file://" + str(w / "probe.templ"), "require-template-schema-exists": False, "formatter": "noop",
+                "dir": str(w / ("src" if inpkg else "out")), "filename": "{{.InterfaceName}}.txt",
+                "pkgname": "src" if inpkg else "out",
+                "packages": {f"{mod}/src": {"config": {"all": True}}}}
+        (w / ".mockery.yml").write_text(json.dumps(conf))
+        res = ctx.run_mockery(w, timeout=300)
+        if res.code != 0:
+            if res.panicked:
+                ctx.violation({"kind": "panic", "route": "template"}, res.brief())
+                return []
+            raise MachineryError("probe-template run failed (exit %s): %s" % (res.code, (res.err + res.out)[-1500:]))
+        def read_events(fn):
+            f = w / ("src" if inpkg else "out") / fn
+            if not f.exists():
+                raise MachineryError(f"probe output {f} missing")
+            out = []
+            for ln in f.read_text().splitlines():
+                ln = ln.strip()
+                if not ln.startswith("{"):
                     continue
-                if j >= len(er) or er[j]["op"] != e["op"]:
-                    raise MachineryError(f"probe outputs I{i}/J{i} do not line up at {e}")
-                for k in ("res", "quals", "visible", "found", "nil"):
-                    if k in er[j]:
-                        e[k + "_erased"] = er[j][k]
-                j += 1
-        events += evs
+                ln = ln.replace(',""]', "]").replace('[""]', "[]")
+                e = json.loads(ln)
+                for k in ("visible", "paths", "quals", "must", "mustseen"):   # strip the trailing "" sentinel of the list fields
+                    if k in e:
+                        e[k] = [x for x in e[k] if x != ""]
+                out.append(e)
+            return out
+
+        events = []
+        for i in range(len(hists)):
+            evs = read_events(f"I{i}.txt")
+            if i in erased:
+                er = [e for e in read_events(f"J{i}.txt")]
+                j = 0
+                for e in evs:
+                    if e["op"] == "suggest":
+                        continue
+                    if j >= len(er) or er[j]["op"] != e["op"]:
+                        raise MachineryError(f"probe outputs I{i}/J{i} do not line up at {e}")
+                    for k in ("res", "quals", "visible", "found", "nil"):
+                        if k in er[j]:
+                            e[k + "_erased"] = er[j][k]
+                    j += 1
+            events += evs
+        return events
+
+    events = run_variant(0, False) + run_variant(len(hists), True)
     paths = sorted({e["path"] for e in events if "path" in e} | {p for e in events for p in e.get("paths", [])})
     return events, paths
 
